@@ -499,7 +499,9 @@ func newHistEnv() *histEnv {
 }
 
 // record classes: format x severity class x shape.  id = fmt*1000 + sev*100 + shape
-var histSevs = []slog.Level{slog.InfoLevel, slog.ErrorLevel, slog.TraceLevel, slog.FailLevel, slog.Level(41), slog.Level(42), slog.Level(43), slog.AlwaysLevel}
+// (258 and -252 are unregistered values that differ from Error and Info by a multiple of 256)
+var histSevs = []slog.Level{slog.InfoLevel, slog.ErrorLevel, slog.TraceLevel, slog.FailLevel, slog.Level(41), slog.Level(42), slog.Level(43), slog.AlwaysLevel,
+	slog.Level(258), slog.Level(-252)}
 
 func (e *histEnv) emit(id int, viaVerb bool) {
 	f, sv, shape := id/1000, (id/100)%10, id%100
@@ -541,6 +543,13 @@ func (e *histEnv) emit(id int, viaVerb bool) {
 			e.reused = slog.Attrs{slog.Int("z", 1), slog.Int("a", 2), slog.Int("z", 3), slog.Int("m", 4), slog.Int("a", 5)}
 		}
 		attrs = e.reused
+	}
+	if shape >= 16 && shape < 80 {
+		// values formatted in several appends (complex numbers, durations, times, floats) at every position
+		// around the capacity of a fresh pooled buffer (1 KiB): the message pads the record in steps of 8 bytes
+		msg = "pad" + strings.Repeat("x", 560+8*(shape-16))
+		attrs = slog.NewAttrs("z", complex(1.5, -1234567.890625), "z64", complex64(complex(-2.25, -0.5)), "d", 90*time.Minute+time.Nanosecond,
+			"f", -1234567.125, "t", e.ts)
 	}
 	// the instant of a record: by default one fixed instant in its own zone; a few shapes carry
 	// the same instant in another zone, or another instant
